@@ -39,8 +39,16 @@ def flagStr (flags : Nat) : String :=
   let c := flags % 16 ≥ 8
   if t ∧ c then "tc" else if t then "t" else if c then "c" else "-"
 
-/-- `AncillaryBuf::<64>::new()`: zeroed, nothing recorded -/
-def ctlBuf : Buf := ⟨.vec, List.replicate 64 0, 0, 64⟩
+/-- `AncillaryBuf::<N>::new()`: zeroed, nothing recorded -/
+def ctlBufN (n : Nat) : Buf := ⟨.vec, List.replicate n 0, 0, n⟩
+def ctlBuf : Buf := ctlBufN 64
+
+/-- kernel contract for the one control message of the `tos` cases (`IP_TOS`, `cmsg_len = 17`,
+`CMSG_SPACE = 24`) delivered into `cap` bytes of control room: (`msg_controllen`, `MSG_CTRUNC`) -/
+def cmsgInto (tos : Bool) (cap : Nat) : Nat × Bool :=
+  if ¬ tos then (0, false)
+  else if cap < 16 then (0, true)
+  else (min 24 cap, decide (cap < 17))
 
 /-! ## lockstep state: what is in flight per direction (the kernel's part of the contract) -/
 
@@ -106,6 +114,15 @@ def drainMulti : Nat → Stream → Nat → Bytes → Bytes × Bool
       | (.err _, s') => drainMulti fuel s' want acc
       | (_, _) => (acc, false)
 
+/-- the consumer of `read_multi_with_ancillary` stops at the first item without data (end of stream for
+this flavour) or when it has everything that was in flight -/
+def collectAnc (want : Nat) : List (Option Bytes) → Bytes → Bytes × Bool
+  | [], acc => (acc, false)
+  | some b :: r, acc =>
+    if b.isEmpty then (acc, true)
+    else if (acc ++ b).length ≥ want ∧ want > 0 then (acc ++ b, false) else collectAnc want r (acc ++ b)
+  | none :: _, acc => (acc, false)
+
 def lockStep (s : LState) (w : List String) : LState × String :=
   match w with
   | ["open", tp, drv, nb, bl] =>
@@ -159,6 +176,33 @@ def lockStep (s : LState) (w : List String) : LState × String :=
     let st := Compio.MultiStream.Stream.new .bytes (multiSubs s.drv (managedCap s.buflen len) q (s.shut d))
     let (got, ended) := drainMulti (2 * q.length + 8) st q.length []
     (s.setQ d (q.drop got.length), hexOf got ++ (if ended then " eof" else ""))
+  | ["mrecva", p, clen] =>
+    let d := 1 - pidx p
+    if (s.q d).isEmpty ∧ ¬ s.shut d then (s, "idle") else
+    let clen := clen.toNat?.getD 0
+    let q := s.q d
+    let cap := payloadCap s.drv s.buflen clen
+    let cs := chunksOf cap (q.length + 1) q
+    -- what the kernel puts into the provided buffer / what the fallback op shows
+    let bufOf (c : Bytes) : Bytes := match s.drv with
+      | .uring => Compio.RecvMsgOut.layout [] [] c 0 clen
+      | .poll => c
+    let mk (c : Bytes) (more : Bool) : Compio.MultiStream.Cqe :=
+      ⟨.ok (match s.drv with | .uring => (bufOf c).length | .poll => c.length), more, some (bufOf c)⟩
+    let subs : List Compio.MultiStream.Sub := match s.drv with
+      | .uring => [.op (cs.map (fun c => mk c true) ++ (if s.shut d then [mk [] false] else []))]
+      | .poll => cs.map (fun c => .op [mk c false]) ++ (if s.shut d then [.op [mk [] false]] else [])
+    let toks := (Compio.MultiStream.Stream.take (cs.length + 1) (Compio.MultiStream.Stream.new .msg subs)).1
+    let datas : List (Option Bytes) := toks.filterMap fun t => match t with
+      | .item b => match s.drv with
+        | .uring => (match Compio.RecvMsgOut.new b clen with
+            | .ok pr => (match pr.data with | .ok x => some (some x) | _ => some none)
+            | _ => some none)
+        | .poll => some (some b)
+      | _ => none
+    if datas.any (·.isNone) then (s, "panic") else
+    let (got, ended) := collectAnc q.length datas []
+    (s.setQ d (q.drop got.length), hexOf got ++ (if ended then " eof" else ""))
   | _ => (s, "bad-op")
 
 
@@ -176,10 +220,11 @@ def GState.q (s : GState) (d : Nat) : List Bytes := if d = 0 then s.d0 else s.d1
 def GState.setQ (s : GState) (d : Nat) (q : List Bytes) : GState := if d = 0 then { s with d0 := q } else { s with d1 := q }
 
 /-- completion of one datagram receive (kernel contract): source label, control length, flags -/
-def GState.comp (s : GState) (sender : Nat) (n : Nat) (trunc : Bool) : Comp :=
+def GState.comp (s : GState) (sender : Nat) (n : Nat) (trunc : Bool) (ctlCap : Nat := 64) : Comp :=
   { n := n, nameLen := if s.named then 1 else 0,
     name := (if sender = 0 then "a" else "b").toUTF8.toList,
-    ctlLen := if s.tos then 24 else 0, flags := if trunc then 0x20 else 0 }
+    ctlLen := (cmsgInto s.tos ctlCap).1,
+    flags := (if trunc then 0x20 else 0) + (if (cmsgInto s.tos ctlCap).2 then 8 else 0) }
 
 def showFrom (a : Option Bytes) : String :=
   match a with
@@ -200,10 +245,7 @@ def dmultiItems (s : GState) (sender : Nat) (kind : String) (clen : Nat) (ds : L
   let ctlCap := match s.drv with
     | .uring => clen
     | .poll => if clen = 0 then s.buflen else min clen s.buflen
-  let fit := decide (24 ≤ ctlCap)
-  let compOf (n : Nat) (tr : Bool) : Comp :=
-    let c := s.comp sender n tr
-    if s.tos ∧ ¬ fit then { c with ctlLen := 0, flags := c.flags + 8 } else c
+  let compOf (n : Nat) (tr : Bool) : Comp := s.comp sender n tr ctlCap
   let bufOf (d : Bytes) : Bytes × Nat :=
     let (w, tr) := kDgram d cap
     let c := compOf w.length tr
@@ -255,6 +297,9 @@ def dgramStep (s : GState) (w : List String) : GState × String :=
     | [] => (s, "idle")
     | dg :: rest =>
       if op = "drecv" then
+        let (kind, ctlCap) : String × Nat := match kind.splitOn ":" with
+          | [k, c] => (k, c.toNat?.getD 64)
+          | _ => (kind, 64)
         match parseShapes arg with
         | none => (s, "bad-op")
         | some bufs =>
@@ -263,7 +308,7 @@ def dgramStep (s : GState) (w : List String) : GState × String :=
           let s' := s.setQ d rest
           let rop : ROp := if kind = "plain" then .recv else if kind = "vec" then .recvVectored
             else if kind = "from" then .recvFrom else if kind = "fromvec" then .recvFromVectored else .recvMsg
-          let c := s.comp d (compLen rop s.drv wr.length cap) tr
+          let c := s.comp d (compLen rop s.drv wr.length cap) tr ctlCap
           if kind = "plain" then
             match bufs with
             | [b] => (s', showRes (fun (r : Nat × Buf) => s!"n={r.1} {showBufs [r.2]}") (mapRecv c.n (b.write wr)))
@@ -281,7 +326,7 @@ def dgramStep (s : GState) (w : List String) : GState × String :=
           else
             (s', showRes (fun (r : (Nat × Nat × Option Bytes × Nat) × (List Buf × Buf)) =>
                 s!"n={r.1.1} {showBufs r.2.1} from={showFrom r.1.2.2.1}" ++ msgTail r.1.2.1 r.2.2.vis.length r.1.2.2.2)
-              (mapRecvMsg c (scatter bufs wr) ctlBuf))
+              (mapRecvMsg c (scatter bufs wr) (ctlBufN ctlCap)))
       else if op = "drecvm" then
         let len := arg.toNat?.getD 0
         let cap := managedCap s.buflen len
@@ -477,6 +522,15 @@ def msEvents : List String → KS → Stream → List String → List String
       if ks.armed then
         msEvents rest { ks with armed := false } (feed s.cancel [⟨.err .cancelled, false, none⟩]) acc
       else msEvents rest ks s.cancel acc
+    else if ev = "z" then
+      -- poll to the end of the stream, then read what is left in the socket
+      let rec drain : Nat → KS → Stream → List String → KS × Stream × List String
+        | 0, ks, s, acc => (ks, s, acc)
+        | n + 1, ks, s, acc =>
+          let (ks2, s2, tok) := msNext ks s
+          if tok = .end_ ∨ tok = .pending then (ks2, s2, tokStr tok :: acc) else drain n ks2 s2 (tokStr tok :: acc)
+      let (ks2, s2, acc2) := drain 64 ks s acc
+      msEvents rest { ks2 with sockq := [] } s2 (("rest:" ++ hexOf ks2.sockq) :: acc2)
     else if ev = "h" then msEvents rest { ks with hold := true } s acc
     else if ev = "r" then msEvents rest { ks with hold := false, free := ks.free + ks.held, held := 0 } s acc
     else
